@@ -1,6 +1,9 @@
 package datatype
 
-import "errors"
+import (
+	"errors"
+	bitcask "github.com/XiXi-2024/xixi-kv"
+)
 
 // Del 删除key
 func (dts *DataTypeService) Del(key []byte) error {
@@ -16,6 +19,10 @@ func (dts *DataTypeService) Type(key []byte) (dataType, error) {
 
 	if len(encValue) == 0 {
 		return 0, errors.New("value is null")
+	}
+	// 已过期的 String 视为不存在
+	if encValue[0] == String && stringExpired(encValue) {
+		return 0, bitcask.ErrKeyNotFound
 	}
 
 	return encValue[0], nil
